@@ -1,7 +1,8 @@
 (* C12 - proofs *)
-From Coq Require Import Lia ZifyBool.
+From Coq Require Import Lia ZifyBool Sorting.Permutation Sorting.Sorted.
 From ASV.C12 Require Import Model.
 From ASV.C04 Require Import Proofs.
+From ASV.C17 Require Proofs.
 
 (* ---------- mapM ---------- *)
 Lemma mapM_length {A B} (f : A -> res B) : forall l r, mapM f l = Ok r -> length r = length l.
@@ -61,10 +62,10 @@ Proof. intros H. unfold clamp. destruct (x <? 0) eqn:E; lia. Qed.
 Definition wf_region (r : rdata) (N : Z) : Prop := 0 <= rstart r <= N /\ 0 <= rend r <= N.
 
 Lemma build_base_seq r sq feats s' fs' :
-  wf_region r (zlen sq) -> rstart r <> rend r ->
+  wf_region r (zlen sq) ->
   build_base r sq feats = Ok (s', fs') -> s' = expected_seq r sq.
 Proof.
-  intros [Hs He] Hne H. unfold build_base in H. unfold expected_seq, out_len.
+  intros [Hs He] H. unfold build_base in H. unfold expected_seq, out_len.
   set (N := zlen sq) in *.
   destruct (crosses r) eqn:Ec.
   - unfold crosses in Ec. unfold build_cross in H. fold N in H.
@@ -82,7 +83,6 @@ Proof.
       replace (rstart r + Z.of_nat (Z.to_nat (N - rstart r) + i)) with (Z.of_nat i + 1 * N) by lia.
       rewrite Z.mod_add by lia. rewrite Z.mod_small by lia. lia.
   - unfold crosses in Ec. injection H as <- _.
-    destruct (rstart r =? rend r) eqn:Eeq; [lia|].
     rewrite !clamp_id by lia. rewrite pyslice_map by (fold N; lia).
     apply map_ext_in. intros i Hi. apply in_seq in Hi. f_equal. f_equal.
     rewrite Z.mod_small by lia. reflexivity.
@@ -91,22 +91,22 @@ Qed.
 (* ---------- structure of write_to_genbank ---------- *)
 Lemma write_unfold r sq feats o : write_to_genbank r sq feats = Ok o ->
   exists s' fs' c adjusted,
-    build_base r sq feats = Ok (s', fs') /\ make_ctx r (zlen sq) = Ok c /\
+    build_base r sq feats = Ok (s', fs') /\ make_ctx r (zlen sq) fs' = Ok c /\
     mapM (adjust_feat c) fs' = Ok adjusted /\
     o = mkOut s' adjusted (build_annotations r) (restore feats (map floc feats)).
 Proof.
   unfold write_to_genbank. intros H.
   destruct (build_base r sq feats) as [[s' fs']|] eqn:Eb; cbn [bind] in H; [|discriminate].
-  destruct (make_ctx r (zlen sq)) as [c|] eqn:Ec; cbn [bind] in H; [|discriminate].
+  destruct (make_ctx r (zlen sq) fs') as [c|] eqn:Ec; cbn [bind] in H; [|discriminate].
   destruct (mapM (adjust_feat c) fs') as [adjusted|] eqn:Ea; cbn [bind] in H; [|discriminate].
   injection H as <-. exists s', fs', c, adjusted. repeat split; first [assumption|reflexivity].
 Qed.
 
 Lemma write_sequence r sq feats o :
-  wf_region r (zlen sq) -> rstart r <> rend r ->
+  wf_region r (zlen sq) ->
   write_to_genbank r sq feats = Ok o -> o_seq o = expected_seq r sq.
 Proof.
-  intros Hwf Hne H. apply write_unfold in H.
+  intros Hwf H. apply write_unfold in H.
   destruct H as (s' & fs' & c & adjusted & Hb & _ & _ & ->). cbn [o_seq].
   eapply build_base_seq; eassumption.
 Qed.
@@ -131,18 +131,28 @@ Lemma adjust_feat_keeps c f g : adjust_feat c f = Ok g ->
 Proof.
   unfold adjust_feat. intros H.
   destruct (ftype f =? T_region).
-  { destruct (fq1 f); injection H as <-; repeat split; reflexivity. }
+  { destruct (mapM (new_number (c_sub c)) (fq2 f)); cbn [bind] in H; [|discriminate].
+    destruct (fq1 f) as [|q0 q].
+    - injection H as <-; repeat split; reflexivity.
+    - destruct (mapM (new_number (c_cc c)) (q0 :: q)); cbn [bind] in H; [|discriminate].
+      injection H as <-; repeat split; reflexivity. }
   destruct (ftype f =? T_cand).
-  { destruct (fq1 f); [discriminate|]. injection H as <-; repeat split; reflexivity. }
+  { destruct (fq1 f) as [|n q]; [discriminate|].
+    destruct (new_number (c_cc c) n); cbn [bind] in H; [|discriminate].
+    destruct (mapM (new_number (c_pc c)) (fq2 f)); cbn [bind] in H; [|discriminate].
+    injection H as <-; repeat split; reflexivity. }
   destruct ((ftype f =? T_proto) || (ftype f =? T_core)).
   { destruct (fq1 f) as [|orig q]; [discriminate|].
+    destruct (new_number (c_pc c) orig); cbn [bind] in H; [|discriminate].
     destruct (lookup_last orig (c_protos c) None); [|discriminate].
     destruct (ftype f =? T_proto).
-    - destruct (offset_location l (- c_start c) (Some (c_len c))); cbn [bind] in H; [|discriminate].
+    - destruct (linearise_loc l (c_start c) (c_len c)); cbn [bind] in H; [|discriminate].
       injection H as <-; repeat split; reflexivity.
     - injection H as <-; repeat split; reflexivity. }
   destruct (ftype f =? T_sub).
-  { destruct (fq1 f); [discriminate|]. injection H as <-; repeat split; reflexivity. }
+  { destruct (fq1 f) as [|n q]; [discriminate|].
+    destruct (new_number (c_sub c) n); cbn [bind] in H; [|discriminate].
+    injection H as <-; repeat split; reflexivity. }
   destruct (ftype f =? T_motif).
   { destruct (adjust_motif_opt (c_start c) (c_len c) (fl1 f)); cbn [bind] in H; [|discriminate].
     destruct (adjust_motif_opt (c_start c) (c_len c) (fl2 f)); cbn [bind] in H; [|discriminate].
@@ -189,119 +199,439 @@ Lemma Forall2_imp {A B} (R1 R2 : A -> B -> Prop) : (forall a b, R1 a b -> R2 a b
   forall l1 l2, Forall2 R1 l1 l2 -> Forall2 R2 l1 l2.
 Proof. intros H l1 l2 HF. induction HF; constructor; auto. Qed.
 
-(* ---------- renumbering ---------- *)
-Lemma renum_props l : l <> [] ->
-  let first := lmin l in
-  (forall n, In n l -> 1 <= renum first n) /\ In 1 (map (renum first) l) /\
-  (forall n m, renum first n = renum first m -> n = m) /\
-  (forall n m, n < m -> renum first n < renum first m) /\
-  (forall k, (forall n, In n l -> n < first + k) -> forall n, In n (map (renum first) l) -> 1 <= n <= k).
+(* ---------- renumbering: ranks in the order of the extract ---------- *)
+(* the new numbers are the positions 1, 2, ... in the sorted list of (start, -length, old number) *)
+Lemma number_from_fst : forall ks i, map fst (number_from i ks) = map nk_num ks.
+Proof. induction ks as [|k ks IH]; intros i; cbn [number_from map fst]; [reflexivity|]. rewrite IH. reflexivity. Qed.
+
+Lemma number_from_snd : forall ks i,
+  map snd (number_from i ks) = map (fun j => i + Z.of_nat j) (seq 0 (length ks)).
 Proof.
-  intros Hne first. unfold renum. repeat split.
-  - intros n Hin. pose proof (lmin_le l n Hin). fold first in H. lia.
-  - apply in_map_iff. exists first. split; [lia|]. apply lmin_in. exact Hne.
-  - intros n m H. lia.
-  - intros n m H. lia.
-  - apply in_map_iff in H0. destruct H0 as (x & <- & Hin). pose proof (lmin_le l x Hin). fold first in H0. lia.
-  - apply in_map_iff in H0. destruct H0 as (x & <- & Hin). specialize (H x Hin). lia.
+  induction ks as [|k ks IH]; intros i; cbn [number_from map snd length seq]; [reflexivity|].
+  f_equal; [lia|]. rewrite IH. rewrite <- seq_shift, map_map. apply map_ext. intros j. lia.
 Qed.
 
-(* the context built from the region: the three offsets are the minima *)
-Lemma make_ctx_firsts r N c : make_ctx r N = Ok c ->
-  c_first_sub c = (match rsubs r with [] => 0 | _ => lmin (rsubs r) end) /\
-  (rcands r <> [] -> c_first_cc c = lmin (map fst (rcands r)) /\
-                     c_first_cluster c = lmin (map fst (all_protos r)) /\ all_protos r <> []) /\
+Definition ranks_distinct (m : list (Z * Z)) : Prop := NoDup (map snd m).
+
+Lemma number_from_distinct ks i : ranks_distinct (number_from i ks).
+Proof.
+  unfold ranks_distinct. rewrite number_from_snd.
+  apply FinFun.Injective_map_NoDup; [|apply seq_NoDup]. intros a b Hab. lia.
+Qed.
+
+Lemma number_from_1_range ks : map snd (number_from 1 ks) = zrange1 (length ks).
+Proof. rewrite number_from_snd. unfold zrange1. apply map_ext. intros j. lia. Qed.
+
+(* dict lookup: the last insertion of a key counts *)
+Lemma lookup_num_notin k : forall l acc, ~ In k (map fst l) -> lookup_num k l acc = acc.
+Proof.
+  induction l as [|[k' v] l IH]; intros acc Hn; cbn [lookup_num]; [reflexivity|].
+  cbn [map fst In] in Hn. rewrite IH by tauto.
+  destruct (k' =? k) eqn:E; [|reflexivity]. exfalso. apply Hn. left. lia.
+Qed.
+
+Lemma lookup_num_in k : forall l acc v, lookup_num k l acc = Some v -> In (k, v) l \/ acc = Some v.
+Proof.
+  induction l as [|[k' v'] l IH]; intros acc v H; cbn [lookup_num] in H; [right; exact H|].
+  apply IH in H. destruct H as [H|H]; [left; right; exact H|].
+  destruct (k' =? k) eqn:E; [|right; exact H].
+  injection H as <-. left. left. f_equal. lia.
+Qed.
+
+Lemma lookup_num_some k : forall l acc, In k (map fst l) -> exists v, lookup_num k l acc = Some v.
+Proof.
+  induction l as [|[k' v'] l IH]; intros acc Hin; cbn [map fst In] in Hin; [contradiction|].
+  cbn [lookup_num]. destruct (in_dec Z.eq_dec k (map fst l)) as [Hl|Hl]; [apply IH; exact Hl|].
+  rewrite lookup_num_notin by exact Hl. destruct Hin as [E|Hin]; [|contradiction].
+  subst k'. rewrite Z.eqb_refl. eexists. reflexivity.
+Qed.
+
+Lemma lookup_num_nodup k v : forall l acc, NoDup (map fst l) -> In (k, v) l -> lookup_num k l acc = Some v.
+Proof.
+  induction l as [|[k' v'] l IH]; intros acc Hnd Hin; [contradiction|].
+  cbn [map fst] in Hnd. inversion Hnd as [|? ? Hnot Hnd']; subst. cbn [lookup_num].
+  destruct Hin as [E|Hin].
+  - injection E as -> ->. rewrite Z.eqb_refl. apply lookup_num_notin. exact Hnot.
+  - apply IH; [exact Hnd'|exact Hin].
+Qed.
+
+Lemma new_number_in m n i : new_number m n = Ok i -> In (n, i) m.
+Proof.
+  unfold new_number. destruct (lookup_num n m None) as [j|] eqn:E; [|discriminate].
+  intros H. injection H as <-. apply lookup_num_in in E. destruct E as [E|E]; [exact E|discriminate].
+Qed.
+
+Lemma snd_distinct_inj (m : list (Z * Z)) a b i : ranks_distinct m -> In (a, i) m -> In (b, i) m -> a = b.
+Proof.
+  unfold ranks_distinct. induction m as [|[k v] m IH]; intros Hnd Ha Hb; [contradiction|].
+  cbn [map snd] in Hnd. inversion Hnd as [|? ? Hnot Hnd']; subst.
+  destruct Ha as [Ea|Ha], Hb as [Eb|Hb].
+  - congruence.
+  - injection Ea as -> ->. exfalso. apply Hnot. apply in_map_iff. exists (b, i). split; [reflexivity|exact Hb].
+  - injection Eb as -> ->. exfalso. apply Hnot. apply in_map_iff. exists (a, i). split; [reflexivity|exact Ha].
+  - apply IH; assumption.
+Qed.
+
+(* two old numbers never get the same new number *)
+Lemma new_number_inj m n n' i : ranks_distinct m -> new_number m n = Ok i -> new_number m n' = Ok i -> n = n'.
+Proof. intros Hd H1 H2. apply new_number_in in H1, H2. eapply snd_distinct_inj; eassumption. Qed.
+
+Lemma nk_num_key cr f n : nk_num (feat_key cr f n) = n.
+Proof. unfold feat_key. destruct cr; reflexivity. Qed.
+
+Lemma nums_of_cons t f fs :
+  nums_of t (f :: fs) = (if ftype f =? t then firstn 1 (fq1 f) else []) ++ nums_of t fs.
+Proof. reflexivity. Qed.
+
+Lemma num_keys_nums cr t : forall fs ks, num_keys cr t fs = Ok ks -> map nk_num ks = nums_of t fs.
+Proof.
+  induction fs as [|f fs IH]; intros ks H; cbn [num_keys] in H.
+  - injection H as <-. reflexivity.
+  - rewrite nums_of_cons. destruct (ftype f =? t).
+    + destruct (fq1 f) as [|n q]; [discriminate|].
+      destruct (num_keys cr t fs) as [ks'|]; cbn [bind] in H; [|discriminate].
+      injection H as <-. cbn [map firstn app]. rewrite nk_num_key. f_equal. apply IH. reflexivity.
+    + cbn [app]. apply IH. exact H.
+Qed.
+
+(* the renumbering of one feature type: the old numbers are those of the features of that type in
+   the extract, the new numbers are exactly 1..k, each used once *)
+Lemma renumbering_spec cr t fs m : renumbering cr t fs = Ok m ->
+  Permutation (map fst m) (nums_of t fs) /\ map snd m = zrange1 (length (nums_of t fs)) /\
+  ranks_distinct m.
+Proof.
+  unfold renumbering. intros H.
+  destruct (num_keys cr t fs) as [ks|] eqn:Ek; cbn [bind] in H; [|discriminate]. injection H as <-.
+  pose proof (num_keys_nums cr t fs ks Ek) as En.
+  pose proof (sort_by_perm' nkey_lt ks) as Hp.
+  split; [|split].
+  - rewrite number_from_fst, <- En. apply Permutation_map. apply Permutation_sym. exact Hp.
+  - rewrite number_from_1_range. f_equal. rewrite <- En, map_length.
+    symmetry. apply Permutation_length. exact Hp.
+  - apply number_from_distinct.
+Qed.
+
+Definition ctx_ok (c : actx) : Prop :=
+  ranks_distinct (c_cc c) /\ ranks_distinct (c_pc c) /\ ranks_distinct (c_sub c).
+
+(* the context: the three renumberings are made from the extract's candidate cluster, protocluster
+   and sub-region features *)
+Lemma make_ctx_spec r N fs c : make_ctx r N fs = Ok c ->
+  renumbering (crosses r) T_cand fs = Ok (c_cc c) /\
+  renumbering (crosses r) T_proto fs = Ok (c_pc c) /\
+  renumbering (crosses r) T_sub fs = Ok (c_sub c) /\
   c_protos c = all_protos r /\ c_start c = rstart r /\ c_len c = N.
 Proof.
   unfold make_ctx. intros H.
-  destruct (rcands r) as [|cd cds] eqn:Ecs.
-  - cbn [bind] in H. injection H as <-.
-    cbn [c_first_sub c_first_cc c_first_cluster c_protos c_start c_len fst snd].
-    split; [reflexivity|]. split; [intros Hx; congruence|]. repeat split; reflexivity.
-  - destruct (all_protos r) as [|p ps] eqn:Eps; cbn [bind] in H; [discriminate|].
-    injection H as <-. cbn [c_first_sub c_first_cc c_first_cluster c_protos c_start c_len fst snd].
-    split; [reflexivity|]. split; [intros _; repeat split; try reflexivity; discriminate|].
-    repeat split; reflexivity.
+  destruct (renumbering (crosses r) T_cand fs) as [cc|]; cbn [bind] in H; [|discriminate].
+  destruct (renumbering (crosses r) T_proto fs) as [pc|]; cbn [bind] in H; [|discriminate].
+  destruct (renumbering (crosses r) T_sub fs) as [sb|]; cbn [bind] in H; [|discriminate].
+  injection H as <-. repeat split; reflexivity.
+Qed.
+
+Lemma make_ctx_ok r N fs c : make_ctx r N fs = Ok c -> ctx_ok c.
+Proof.
+  intros H. apply make_ctx_spec in H. destruct H as (H1 & H2 & H3 & _).
+  apply renumbering_spec in H1, H2, H3. unfold ctx_ok. tauto.
 Qed.
 
 (* what adjust_feat does to the numbers, by feature type *)
 Lemma adjust_numbers c f g : adjust_feat c f = Ok g ->
-  (ftype f = T_region -> fq1 g = map (renum (c_first_cc c)) (fq1 f) /\
-                         fq2 g = map (renum (c_first_sub c)) (fq2 f)) /\
-  (ftype f = T_cand -> exists n q, fq1 f = n :: q /\ fq1 g = [renum (c_first_cc c) n] /\
-                                   fq2 g = map (renum (c_first_cluster c)) (fq2 f)) /\
+  (ftype f = T_region -> mapM (new_number (c_cc c)) (fq1 f) = Ok (fq1 g) /\
+                         mapM (new_number (c_sub c)) (fq2 f) = Ok (fq2 g)) /\
+  (ftype f = T_cand -> exists n q i, fq1 f = n :: q /\ new_number (c_cc c) n = Ok i /\ fq1 g = [i] /\
+                                     mapM (new_number (c_pc c)) (fq2 f) = Ok (fq2 g)) /\
   (ftype f = T_proto \/ ftype f = T_core ->
-     exists n q, fq1 f = n :: q /\ fq1 g = [renum (c_first_cluster c) n] /\
-                 lookup_last n (c_protos c) None <> None) /\
-  (ftype f = T_sub -> exists n q, fq1 f = n :: q /\ fq1 g = [renum (c_first_sub c) n]).
+     exists n q i, fq1 f = n :: q /\ new_number (c_pc c) n = Ok i /\ fq1 g = [i] /\
+                   lookup_last n (c_protos c) None <> None) /\
+  (ftype f = T_sub -> exists n q i, fq1 f = n :: q /\ new_number (c_sub c) n = Ok i /\ fq1 g = [i]).
 Proof.
   unfold adjust_feat, T_region, T_cand, T_proto, T_core, T_sub, T_motif. intros H.
   destruct (ftype f =? 1) eqn:E1.
   { assert (ftype f = 1) by lia. repeat split; try (intros; lia); try (intros [?|?]; lia).
-    - destruct (fq1 f) eqn:Eq; injection H as <-; reflexivity.
-    - destruct (fq1 f) eqn:Eq; injection H as <-; reflexivity. }
+    - destruct (mapM (new_number (c_sub c)) (fq2 f)) as [subs|]; cbn [bind] in H; [|discriminate].
+      destruct (fq1 f) as [|q0 q] eqn:Eq.
+      + injection H as <-. reflexivity.
+      + destruct (mapM (new_number (c_cc c)) (q0 :: q)) as [cs|]; cbn [bind] in H; [|discriminate].
+        injection H as <-. reflexivity.
+    - destruct (mapM (new_number (c_sub c)) (fq2 f)) as [subs|]; cbn [bind] in H; [|discriminate].
+      destruct (fq1 f) as [|q0 q] eqn:Eq.
+      + injection H as <-. reflexivity.
+      + destruct (mapM (new_number (c_cc c)) (q0 :: q)) as [cs|]; cbn [bind] in H; [|discriminate].
+        injection H as <-. reflexivity. }
   destruct (ftype f =? 2) eqn:E2.
   { assert (ftype f = 2) by lia. repeat split; try (intros; lia); try (intros [?|?]; lia).
-    intros _. destruct (fq1 f) as [|n q]; [discriminate|]. injection H as <-.
-    exists n, q. repeat split; reflexivity. }
+    intros _. destruct (fq1 f) as [|n q]; [discriminate|].
+    destruct (new_number (c_cc c) n) as [i|] eqn:En; cbn [bind] in H; [|discriminate].
+    destruct (mapM (new_number (c_pc c)) (fq2 f)) as [ps|] eqn:Ep; cbn [bind] in H; [|discriminate].
+    injection H as <-. exists n, q, i. repeat split; first [reflexivity|assumption]. }
   destruct ((ftype f =? 3) || (ftype f =? 4)) eqn:E34.
   { repeat split; try (intros; lia). intros _.
-    destruct (fq1 f) as [|n q]; [discriminate|]. exists n, q.
+    destruct (fq1 f) as [|n q]; [discriminate|].
+    destruct (new_number (c_pc c) n) as [i|] eqn:En; cbn [bind] in H; [|discriminate].
+    exists n, q, i.
     destruct (lookup_last n (c_protos c) None) as [core|] eqn:El; [|discriminate].
     destruct (ftype f =? 3).
-    - destruct (offset_location core (- c_start c) (Some (c_len c))); cbn [bind] in H; [|discriminate].
-      injection H as <-. repeat split; try reflexivity. discriminate.
-    - injection H as <-. repeat split; try reflexivity. discriminate. }
+    - destruct (linearise_loc core (c_start c) (c_len c)); cbn [bind] in H; [|discriminate].
+      injection H as <-. repeat split; try reflexivity; try assumption. discriminate.
+    - injection H as <-. repeat split; try reflexivity; try assumption. discriminate. }
   destruct (ftype f =? 5) eqn:E5.
   { assert (ftype f = 5) by lia. repeat split; try (intros; lia); try (intros [?|?]; lia).
-    intros _. destruct (fq1 f) as [|n q]; [discriminate|]. injection H as <-.
-    exists n, q. split; reflexivity. }
+    intros _. destruct (fq1 f) as [|n q]; [discriminate|].
+    destruct (new_number (c_sub c) n) as [i|] eqn:En; cbn [bind] in H; [|discriminate].
+    injection H as <-. exists n, q, i. repeat split; first [reflexivity|assumption]. }
   repeat split; try (intros; lia); try (intros [?|?]; lia).
 Qed.
 
+(* a list of references and a number are renumbered by the same map: n is listed before iff its new
+   number is listed afterwards *)
+Lemma refs_in_iff m l l' n i : ranks_distinct m ->
+  mapM (new_number m) l = Ok l' -> new_number m n = Ok i -> (In n l <-> In i l').
+Proof.
+  intros Hd Hm Hn. apply mapM_Forall2 in Hm. induction Hm as [|x y xs ys Hxy _ IH].
+  - split; intros [].
+  - cbn [In]. split.
+    + intros [E|Hin]; [left; subst x; congruence|right; apply IH; exact Hin].
+    + intros [E|Hin]; [left; subst y; eapply new_number_inj; eassumption|right; apply IH; exact Hin].
+Qed.
+
 (* cross references stay consistent: a number listed by the region feature and carried by a
-   candidate feature is mapped to the same new number; likewise candidate -> protocluster/core *)
-Lemma refs_region_cand c fr fc gr gc n q :
+   candidate feature is mapped to the same new number; likewise candidate -> protocluster/core and
+   region -> sub-region *)
+Lemma refs_region_cand c fr fc gr gc n q : ctx_ok c ->
   ftype fr = T_region -> ftype fc = T_cand ->
-  adjust_feat c fr = Ok gr -> adjust_feat c fc = Ok gc ->
-  fq1 fc = n :: q -> (In n (fq1 fr) <-> In (renum (c_first_cc c) n) (fq1 gr)) /\ fq1 gc = [renum (c_first_cc c) n].
+  adjust_feat c fr = Ok gr -> adjust_feat c fc = Ok gc -> fq1 fc = n :: q ->
+  exists i, new_number (c_cc c) n = Ok i /\ fq1 gc = [i] /\ (In n (fq1 fr) <-> In i (fq1 gr)).
 Proof.
-  intros Tr Tc Hr Hc Hq.
+  intros (Hd & _ & _) Tr Tc Hr Hc Hq.
   destruct (adjust_numbers _ _ _ Hr) as (Hr1 & _). destruct (Hr1 Tr) as (Er & _).
-  destruct (adjust_numbers _ _ _ Hc) as (_ & Hc1 & _). destruct (Hc1 Tc) as (n' & q' & E1 & E2 & _).
-  rewrite Hq in E1. injection E1 as <- <-. split; [|exact E2].
-  rewrite Er. rewrite in_map_iff. split.
-  - intros Hin. exists n. split; [reflexivity|exact Hin].
-  - intros (x & Hx & Hin). unfold renum in Hx. assert (x = n) by lia. subst x. exact Hin.
+  destruct (adjust_numbers _ _ _ Hc) as (_ & Hc1 & _). destruct (Hc1 Tc) as (n' & q' & i & E1 & E2 & E3 & _).
+  rewrite Hq in E1. injection E1 as <- <-. exists i. split; [exact E2|]. split; [exact E3|].
+  eapply refs_in_iff; eassumption.
 Qed.
 
-Lemma refs_region_sub c fr fs gr gs n q :
+Lemma refs_region_sub c fr fs gr gs n q : ctx_ok c ->
   ftype fr = T_region -> ftype fs = T_sub ->
-  adjust_feat c fr = Ok gr -> adjust_feat c fs = Ok gs ->
-  fq1 fs = n :: q -> (In n (fq2 fr) <-> In (renum (c_first_sub c) n) (fq2 gr)) /\ fq1 gs = [renum (c_first_sub c) n].
+  adjust_feat c fr = Ok gr -> adjust_feat c fs = Ok gs -> fq1 fs = n :: q ->
+  exists i, new_number (c_sub c) n = Ok i /\ fq1 gs = [i] /\ (In n (fq2 fr) <-> In i (fq2 gr)).
 Proof.
-  intros Tr Ts Hr Hs Hq.
+  intros (_ & _ & Hd) Tr Ts Hr Hs Hq.
   destruct (adjust_numbers _ _ _ Hr) as (Hr1 & _). destruct (Hr1 Tr) as (_ & Er).
-  destruct (adjust_numbers _ _ _ Hs) as (_ & _ & _ & Hs1). destruct (Hs1 Ts) as (n' & q' & E1 & E2).
-  rewrite Hq in E1. injection E1 as <- <-. split; [|exact E2].
-  rewrite Er. rewrite in_map_iff. split.
-  - intros Hin. exists n. split; [reflexivity|exact Hin].
-  - intros (x & Hx & Hin). unfold renum in Hx. assert (x = n) by lia. subst x. exact Hin.
+  destruct (adjust_numbers _ _ _ Hs) as (_ & _ & _ & Hs1). destruct (Hs1 Ts) as (n' & q' & i & E1 & E2 & E3).
+  rewrite Hq in E1. injection E1 as <- <-. exists i. split; [exact E2|]. split; [exact E3|].
+  eapply refs_in_iff; eassumption.
 Qed.
 
-Lemma refs_cand_proto c fc fp gc gp n q :
+Lemma refs_cand_proto c fc fp gc gp n q : ctx_ok c ->
   ftype fc = T_cand -> (ftype fp = T_proto \/ ftype fp = T_core) ->
-  adjust_feat c fc = Ok gc -> adjust_feat c fp = Ok gp ->
-  fq1 fp = n :: q ->
-  (In n (fq2 fc) <-> In (renum (c_first_cluster c) n) (fq2 gc)) /\ fq1 gp = [renum (c_first_cluster c) n].
+  adjust_feat c fc = Ok gc -> adjust_feat c fp = Ok gp -> fq1 fp = n :: q ->
+  exists i, new_number (c_pc c) n = Ok i /\ fq1 gp = [i] /\ (In n (fq2 fc) <-> In i (fq2 gc)).
 Proof.
-  intros Tc Tp Hc Hp Hq.
-  destruct (adjust_numbers _ _ _ Hc) as (_ & Hc1 & _). destruct (Hc1 Tc) as (n' & q' & _ & _ & Ec).
-  destruct (adjust_numbers _ _ _ Hp) as (_ & _ & Hp1 & _). destruct (Hp1 Tp) as (n2 & q2 & E1 & E2 & _).
-  rewrite Hq in E1. injection E1 as <- <-. split; [|exact E2].
-  rewrite Ec. rewrite in_map_iff. split.
-  - intros Hin. exists n. split; [reflexivity|exact Hin].
-  - intros (x & Hx & Hin). unfold renum in Hx. assert (x = n) by lia. subst x. exact Hin.
+  intros (_ & Hd & _) Tc Tp Hc Hp Hq.
+  destruct (adjust_numbers _ _ _ Hc) as (_ & Hc1 & _). destruct (Hc1 Tc) as (n' & q' & i' & _ & _ & _ & Ec).
+  destruct (adjust_numbers _ _ _ Hp) as (_ & _ & Hp1 & _). destruct (Hp1 Tp) as (n2 & q2 & i & E1 & E2 & E3 & _).
+  rewrite Hq in E1. injection E1 as <- <-. exists i. split; [exact E2|]. split; [exact E3|].
+  eapply refs_in_iff; eassumption.
+Qed.
+
+(* ---------- the new numbers of one type are exactly 1..k ---------- *)
+Definition num_type (t : Z) (c : actx) : list (Z * Z) :=
+  if t =? T_cand then c_cc c else if t =? T_proto then c_pc c else c_sub c.
+
+Lemma adjusted_nums t c : t = T_cand \/ t = T_proto \/ t = T_sub ->
+  forall fs gs, mapM (adjust_feat c) fs = Ok gs ->
+  Forall2 (fun n i => new_number (num_type t c) n = Ok i) (nums_of t fs) (nums_of t gs).
+Proof.
+  intros Ht. induction fs as [|f fs IH]; intros gs H; cbn [mapM] in H.
+  - injection H as <-. constructor.
+  - destruct (adjust_feat c f) as [g|] eqn:Ef; cbn [bind] in H; [|discriminate].
+    destruct (mapM (adjust_feat c) fs) as [gs'|] eqn:Em; cbn [bind] in H; [|discriminate].
+    injection H as <-. rewrite !nums_of_cons.
+    destruct (adjust_feat_keeps _ _ _ Ef) as (_ & Ety & _). rewrite Ety.
+    apply Forall2_app; [|apply IH; reflexivity].
+    destruct (ftype f =? t) eqn:Et; [|constructor].
+    assert (Eft : ftype f = t) by lia.
+    pose proof (adjust_numbers _ _ _ Ef) as (_ & Hc & Hp & Hs).
+    unfold num_type, T_cand, T_proto, T_sub in *.
+    destruct Ht as [ -> | [ -> | -> ] ].
+    + destruct (Hc Eft) as (n & q & i & -> & En & -> & _). cbn. constructor; [exact En|constructor].
+    + destruct (Hp (or_introl Eft)) as (n & q & i & -> & En & -> & _). cbn. constructor; [exact En|constructor].
+    + destruct (Hs Eft) as (n & q & i & -> & En & ->). cbn. constructor; [exact En|constructor].
+Qed.
+
+Lemma Forall2_map_fun {A B} (R : A -> B -> Prop) (h : A -> B) : (forall a b, R a b -> b = h a) ->
+  forall l l', Forall2 R l l' -> l' = map h l.
+Proof. intros Hh l l' HF. induction HF; cbn [map]; [reflexivity|]. f_equal; auto. Qed.
+
+Lemma numbers_1_to_k r N fs c gs t : t = T_cand \/ t = T_proto \/ t = T_sub ->
+  make_ctx r N fs = Ok c -> mapM (adjust_feat c) fs = Ok gs -> NoDup (nums_of t fs) ->
+  Permutation (nums_of t gs) (zrange1 (length (nums_of t fs))).
+Proof.
+  intros Ht Hc Hm Hnd.
+  assert (Hr : renumbering (crosses r) t fs = Ok (num_type t c)).
+  { apply make_ctx_spec in Hc. destruct Hc as (H1 & H2 & H3 & _).
+    unfold num_type, T_cand, T_proto, T_sub in *. destruct Ht as [ -> | [ -> | -> ] ]; assumption. }
+  apply renumbering_spec in Hr. destruct Hr as (Hp & Hs & _).
+  set (m := num_type t c) in *.
+  set (af := fun n => match lookup_num n m None with Some i => i | None => 0 end).
+  pose proof (adjusted_nums t c Ht fs gs Hm) as HF. fold m in HF.
+  assert (E1 : nums_of t gs = map af (nums_of t fs)).
+  { apply (Forall2_map_fun _ af) in HF; [exact HF|].
+    intros a b Hab. unfold new_number in Hab. unfold af.
+    destruct (lookup_num a m None); [injection Hab as <-; reflexivity|discriminate]. }
+  assert (Hndm : NoDup (map fst m)).
+  { apply (Permutation_NoDup (Permutation_sym Hp)). exact Hnd. }
+  assert (E2 : map snd m = map af (map fst m)).
+  { rewrite map_map. apply map_ext_in. intros [k v] Hin. cbn [fst snd]. unfold af.
+    rewrite (lookup_num_nodup k v m None Hndm Hin). reflexivity. }
+  rewrite E1, <- Hs, E2. apply Permutation_map. apply Permutation_sym. exact Hp.
+Qed.
+
+(* ---------- in an origin-crossing region the new numbers follow the position in the extract ---------- *)
+Lemma nkey_lt_irr a : nkey_lt a a = false.
+Proof. destruct a as [[s l] n]. unfold nkey_lt. lia. Qed.
+
+Lemma nkey_lt_trans a b c : nkey_lt a b = true -> nkey_lt b c = true -> nkey_lt a c = true.
+Proof. destruct a as [[s1 l1] n1], b as [[s2 l2] n2], c as [[s3 l3] n3]. unfold nkey_lt. lia. Qed.
+
+Lemma number_from_ge : forall ks j n i, In (n, i) (number_from j ks) -> j <= i.
+Proof.
+  induction ks as [|k ks IH]; intros j n i H; cbn [number_from In] in H; [contradiction|].
+  destruct H as [E|H]; [injection E as _ <-; lia|]. apply IH in H. lia.
+Qed.
+
+Lemma number_from_in_num ks j n i : In (n, i) (number_from j ks) -> In n (map nk_num ks).
+Proof.
+  intros H. rewrite <- (number_from_fst ks j). apply in_map_iff. exists (n, i). split; [reflexivity|exact H].
+Qed.
+
+Lemma ranks_follow_order : forall S j,
+  ASV.C17.Proofs.wsorted nkey_lt S -> NoDup (map nk_num S) ->
+  forall ka kb ia ib, In ka S -> In kb S ->
+  In (nk_num ka, ia) (number_from j S) -> In (nk_num kb, ib) (number_from j S) ->
+  nkey_lt ka kb = true -> ia < ib.
+Proof.
+  induction S as [|k S IH]; intros j Hs Hnd ka kb ia ib Ha Hb Hia Hib Hlt; [contradiction|].
+  inversion Hs as [|? ? Hs' Hall]; subst. cbn [map] in Hnd. inversion Hnd as [|? ? Hnot Hnd']; subst.
+  rewrite Forall_forall in Hall. cbn [number_from In] in Hia, Hib.
+  assert (Hhead : forall kx, In kx (k :: S) -> nk_num kx = nk_num k -> kx = k).
+  { intros kx [E|Hin] En; [symmetry; exact E|]. exfalso. apply Hnot. rewrite <- En. apply in_map. exact Hin. }
+  assert (Htail : forall kx i, In kx (k :: S) -> In (nk_num kx, i) (number_from (j + 1) S) -> In kx S).
+  { intros kx i [E|Hin] Hi; [|exact Hin]. exfalso. subst kx. apply Hnot. eapply number_from_in_num. exact Hi. }
+  destruct Hia as [Ea|Hia], Hib as [Eb|Hib].
+  - injection Ea as Ea _. injection Eb as Eb _.
+    rewrite (Hhead ka Ha (eq_sym Ea)), (Hhead kb Hb (eq_sym Eb)), nkey_lt_irr in Hlt. discriminate.
+  - injection Ea as _ <-. apply number_from_ge in Hib. lia.
+  - injection Eb as Eb _. rewrite (Hhead kb Hb (eq_sym Eb)) in Hlt.
+    rewrite (Hall ka (Htail ka ia Ha Hia)) in Hlt. discriminate.
+  - apply (IH (j + 1) Hs' Hnd' ka kb ia ib); [eapply Htail; eassumption|eapply Htail; eassumption|assumption..].
+Qed.
+
+Lemma num_keys_in cr t : forall fs ks f n q, num_keys cr t fs = Ok ks ->
+  In f fs -> ftype f = t -> fq1 f = n :: q -> In (feat_key cr f n) ks.
+Proof.
+  induction fs as [|f0 fs IH]; intros ks f n q H Hin Ht Hq; [contradiction|]. cbn [num_keys] in H.
+  destruct (ftype f0 =? t) eqn:E0.
+  - destruct (fq1 f0) as [|n0 q0] eqn:Eq0; [discriminate|].
+    destruct (num_keys cr t fs) as [ks'|] eqn:Ek; cbn [bind] in H; [|discriminate]. injection H as <-.
+    destruct Hin as [->|Hin]; [left; rewrite Hq in Eq0; injection Eq0 as <- _; reflexivity|].
+    right. eapply IH; try eassumption. reflexivity.
+  - destruct Hin as [->|Hin]; [lia|]. eapply IH; eassumption.
+Qed.
+
+Lemma area_lt_key f1 f2 g1 g2 n1 n2 : floc g1 = floc f1 -> floc g2 = floc f2 ->
+  area_lt g1 g2 = true -> nkey_lt (feat_key true f1 n1) (feat_key true f2 n2) = true.
+Proof. intros E1 E2. unfold area_lt, feat_key, nkey_lt. rewrite E1, E2. lia. Qed.
+
+Lemma adjusted_in c : forall fs gs, mapM (adjust_feat c) fs = Ok gs ->
+  forall g, In g gs -> exists f, In f fs /\ adjust_feat c f = Ok g.
+Proof.
+  intros fs gs H. apply mapM_Forall2 in H. induction H as [|f g fs gs Hfg _ IH]; intros g0 Hin; [contradiction|].
+  destruct Hin as [<-|Hin]; [exists f; split; [left; reflexivity|exact Hfg]|].
+  destruct (IH g0 Hin) as (f0 & Hf0 & Ef0). exists f0. split; [right; exact Hf0|exact Ef0].
+Qed.
+
+Lemma numbers_follow_position r N fs c gs t : t = T_cand \/ t = T_proto \/ t = T_sub ->
+  crosses r = true -> make_ctx r N fs = Ok c -> mapM (adjust_feat c) fs = Ok gs ->
+  NoDup (nums_of t fs) -> position_order_type t gs = true.
+Proof.
+  intros Ht Hcr Hc Hm Hnd.
+  assert (Hr : renumbering true t fs = Ok (num_type t c)).
+  { apply make_ctx_spec in Hc. rewrite Hcr in Hc. destruct Hc as (H1 & H2 & H3 & _).
+    unfold num_type, T_cand, T_proto, T_sub in *. destruct Ht as [ -> | [ -> | -> ] ]; assumption. }
+  unfold renumbering in Hr. destruct (num_keys true t fs) as [ks|] eqn:Ek; cbn [bind] in Hr; [|discriminate].
+  injection Hr as Hr. set (S := sort_by nkey_lt ks) in *.
+  assert (HS : ASV.C17.Proofs.wsorted nkey_lt S).
+  { apply ASV.C17.Proofs.sort_by_wsorted; [exact nkey_lt_irr|exact nkey_lt_trans]. }
+  assert (HP : Permutation ks S) by apply sort_by_perm'.
+  assert (HndS : NoDup (map nk_num S)).
+  { apply (Permutation_NoDup (l := map nk_num ks)); [apply Permutation_map; exact HP|].
+    rewrite (num_keys_nums true t fs ks Ek). exact Hnd. }
+  (* every adjusted feature of type t: its key is in S and its new number is the rank of the key *)
+  assert (Hfeat : forall g, In g gs -> ftype g = t ->
+            exists f n i, floc g = floc f /\ In (feat_key true f n) S /\ fq1 g = [i] /\
+                          In (nk_num (feat_key true f n), i) (number_from 1 S)).
+  { intros g Hg Hgt. destruct (adjusted_in c fs gs Hm g Hg) as (f & Hf & Ef).
+    destruct (adjust_feat_keeps _ _ _ Ef) as (El & Ety & _).
+    assert (Eft : ftype f = t) by congruence.
+    assert (Hnum : exists n q i, fq1 f = n :: q /\ new_number (num_type t c) n = Ok i /\ fq1 g = [i]).
+    { pose proof (adjust_numbers _ _ _ Ef) as (_ & Hcc & Hpp & Hss).
+      unfold num_type, T_cand, T_proto, T_sub in *. destruct Ht as [ -> | [ -> | -> ] ].
+      - destruct (Hcc Eft) as (n & q & i & E1 & E2 & E3 & _). exists n, q, i. cbn. tauto.
+      - destruct (Hpp (or_introl Eft)) as (n & q & i & E1 & E2 & E3 & _). exists n, q, i. cbn. tauto.
+      - destruct (Hss Eft) as (n & q & i & E1 & E2 & E3). exists n, q, i. cbn. tauto. }
+    destruct Hnum as (n & q & i & Eq & En & Eg). exists f, n, i. split; [exact El|].
+    split; [apply (Permutation_in _ HP); eapply num_keys_in; eassumption|]. split; [exact Eg|].
+    rewrite nk_num_key. rewrite <- Hr in En. apply new_number_in. exact En. }
+  unfold position_order_type. apply forallb_forall. intros a Ha. apply forallb_forall. intros b Hb.
+  apply filter_In in Ha, Hb. destruct Ha as [Ha Hat], Hb as [Hb Hbt].
+  destruct (area_lt a b) eqn:Elt; [|reflexivity].
+  destruct (Hfeat a Ha ltac:(lia)) as (fa & na & ia & Ela & Hka & Eqa & Hra).
+  destruct (Hfeat b Hb ltac:(lia)) as (fb & nb & ib & Elb & Hkb & Eqb & Hrb).
+  pose proof (area_lt_key fa fb a b na nb Ela Elb Elt) as Hk.
+  pose proof (ranks_follow_order S 1 HS HndS _ _ _ _ Hka Hkb Hra Hrb Hk) as Hlt.
+  unfold num_lt. rewrite Eqa, Eqb. lia.
+Qed.
+
+(* ... on the level of write_to_genbank: fs' = the features of the extract before the renumbering *)
+Lemma write_numbers_1_to_k r sq feats s' fs' o t : t = T_cand \/ t = T_proto \/ t = T_sub ->
+  build_base r sq feats = Ok (s', fs') -> write_to_genbank r sq feats = Ok o -> NoDup (nums_of t fs') ->
+  Permutation (nums_of t (o_feats o)) (zrange1 (length (nums_of t fs'))) /\
+  (crosses r = true -> position_order_type t (o_feats o) = true).
+Proof.
+  intros Ht Hb H Hnd. apply write_unfold in H.
+  destruct H as (s2 & fs2 & c & adjusted & Hb2 & Hc & Ha & ->). rewrite Hb in Hb2. injection Hb2 as <- <-.
+  cbn [o_feats]. split.
+  - eapply numbers_1_to_k; eassumption.
+  - intros Hcr. eapply numbers_follow_position; eassumption.
+Qed.
+
+(* in a region that does not cross the origin the extract is a selection of the parent's features: distinct
+   numbers in the parent are distinct numbers in the extract *)
+Lemma nums_of_set_loc t (h : feat -> loc) : forall l, nums_of t (map (fun f => set_loc f (h f)) l) = nums_of t l.
+Proof. induction l as [|f l IH]; [reflexivity|]. cbn [map]. rewrite !nums_of_cons, IH. reflexivity. Qed.
+
+Lemma nodup_app_r {A} (a b : list A) : NoDup (a ++ b) -> NoDup b.
+Proof. induction a as [|x a IH]; intros H; [exact H|]. inversion H; subst. apply IH. assumption. Qed.
+
+Lemma nums_of_filter_nodup t p : forall l, NoDup (nums_of t l) -> NoDup (nums_of t (filter p l)).
+Proof.
+  induction l as [|f l IH]; intros H; [constructor|]. rewrite nums_of_cons in H. cbn [filter].
+  pose proof (nodup_app_r _ _ H) as Hr.
+  destruct (p f); [|apply IH; exact Hr]. rewrite nums_of_cons.
+  destruct (ftype f =? t); [|apply IH; exact Hr].
+  destruct (fq1 f) as [|n q]; [apply IH; exact Hr|]. cbn [firstn app] in *.
+  inversion H as [|? ? Hnot _]; subst. constructor; [|apply IH; exact Hr].
+  intros Hin. apply Hnot. clear - Hin. induction l as [|g l IH]; [exact Hin|]. cbn [filter] in Hin.
+  rewrite nums_of_cons. apply in_or_app. destruct (p g); [|right; apply IH; exact Hin].
+  rewrite nums_of_cons in Hin. apply in_app_or in Hin. destruct Hin as [Hin|Hin]; [left; exact Hin|right; apply IH; exact Hin].
+Qed.
+
+Lemma linear_extract_nodup r sq feats s' fs' t : crosses r = false ->
+  build_base r sq feats = Ok (s', fs') -> NoDup (nums_of t feats) -> NoDup (nums_of t fs').
+Proof.
+  intros Hc Hb Hnd. unfold build_base in Hb. rewrite Hc in Hb. injection Hb as _ <-.
+  unfold slice_feats. rewrite nums_of_set_loc. apply nums_of_filter_nodup. exact Hnd.
 Qed.
 
 (* ---------- retained features and their new locations ---------- *)
@@ -415,13 +745,26 @@ Proof.
     exists (y :: ra), rb. repeat split; [|exact Hb]. cbn [mapM]. rewrite Ef, Ha. reflexivity.
 Qed.
 
+(* _linearise_location: a location covering the whole ring becomes the whole extract, every other
+   location is moved by offset_location *)
+Lemma linearise_whole l start N : 0 <= N -> llen l = N ->
+  linearise_loc l start N = Ok [mkPart 0 N (lstrand l)].
+Proof.
+  intros HN Hl. unfold linearise_loc, mkFL. destruct (llen l =? N) eqn:E; [|lia].
+  destruct (N <? 0) eqn:E0; [lia|]. reflexivity.
+Qed.
+
+Lemma linearise_plain l start N : llen l <> N ->
+  linearise_loc l start N = offset_location l (- start) (Some N).
+Proof. intros Hl. unfold linearise_loc. destruct (llen l =? N) eqn:E; [lia|reflexivity]. Qed.
+
 Lemma cross_rel (r : rdata) (N : Z) : forall fs gs,
-  mapM (fun f => do l <- offset_location (floc f) (- rstart r) (Some N); Ok (set_loc f l)) fs = Ok gs ->
-  Forall2 (fun f g => offset_location (floc f) (- rstart r) (Some N) = Ok (floc g) /\ same_id f g) fs gs.
+  mapM (fun f => do l <- linearise_loc (floc f) (rstart r) N; Ok (set_loc f l)) fs = Ok gs ->
+  Forall2 (fun f g => linearise_loc (floc f) (rstart r) N = Ok (floc g) /\ same_id f g) fs gs.
 Proof.
   intros fs gs H. apply mapM_Forall2 in H. eapply Forall2_imp; [|exact H].
   intros f g Hf. cbn beta in Hf.
-  destruct (offset_location (floc f) (- rstart r) (Some N)) as [l|] eqn:Eo; cbn [bind] in Hf; [|discriminate].
+  destruct (linearise_loc (floc f) (rstart r) N) as [l|] eqn:Eo; cbn [bind] in Hf; [|discriminate].
   injection Hf as <-. cbn [floc set_loc]. unfold same_id. cbn [ftype ftag set_loc]. repeat split; reflexivity.
 Qed.
 
@@ -434,7 +777,7 @@ Lemma write_crossing_features r sq feats o :
   exists ga gb gc, o_feats o = ga ++ gb ++ gc /\
     Forall2 (fun f g => floc g = shift_loc (floc f) (- rstart r) /\ same_id f g)
             (filter (inside (rstart r) N) feats) ga /\
-    Forall2 (fun f g => offset_location (floc f) (- rstart r) (Some N) = Ok (floc g) /\ same_id f g)
+    Forall2 (fun f g => linearise_loc (floc f) (rstart r) N = Ok (floc g) /\ same_id f g)
             (filter (cross_kept r) feats) gb /\
     Forall2 (fun f g => offset_location (shift_loc (floc f) (- 0)) (N - rstart r) (Some N) = Ok (floc g) /\ same_id f g)
             (filter (inside 0 (rend r)) feats) gc.
@@ -505,8 +848,16 @@ Lemma write_crossing_same_bases r sq feats o :
 Proof.
   intros Hwf Hc H Hfe N.
   destruct (write_crossing_features r sq feats o Hwf Hc H) as (ga & gb & gc & E & Ha & Hb & Hcc).
-  exists ga, gb, gc. split; [exact E|]. split; [|split; [exact Hb|]].
+  exists ga, gb, gc. split; [exact E|]. split; [|split].
   - eapply Forall2_imp; [|exact Ha]. intros f g Hfg. apply shift_same_bases. exact Hfg.
+  - (* no feature covers the whole ring (wf_feat): _linearise_location is offset_location *)
+    clear E Ha Hcc H.
+    assert (Hin : Forall (wf_feat N) (filter (cross_kept r) feats)).
+    { apply Forall_forall. intros f Hf. apply filter_In in Hf. rewrite Forall_forall in Hfe. apply Hfe. apply Hf. }
+    revert Hin. induction Hb as [|f g fs gs Hh _ IH]; intros Hin; [constructor|].
+    inversion Hin as [|? ? Hw Hin']; subst. constructor; [|apply IH; exact Hin'].
+    destruct Hh as [Ho Hid]. split; [|exact Hid]. destruct Hw as (_ & _ & Hlen).
+    rewrite linearise_plain in Ho by exact Hlen. exact Ho.
   - clear E Ha Hb H. fold N in Hcc. unfold crosses in Hc. destruct Hwf as [Hs He].
     assert (Hin : Forall (fun f => wf_feat N f /\ inside 0 (rend r) f = true) (filter (inside 0 (rend r)) feats)).
     { apply Forall_forall. intros f Hf. apply filter_In in Hf. destruct Hf as [Hf1 Hf2].
@@ -516,17 +867,19 @@ Proof.
     apply shift_same_bases. destruct Hh as [Ho Hid]. split; [|exact Hid].
     replace (- 0) with 0 in Ho by reflexivity. rewrite shift_loc_0 in Ho.
     destruct Hw as (Hne & Hwfp & Hlen). unfold inside in Hi.
+    pose proof (lstart_lt_lend _ Hne Hwfp) as Hlt.
     rewrite offset_plain in Ho; [injection Ho as <-; reflexivity|lia|exact Hne|exact Hwfp|exact Hlen|lia|lia].
 Qed.
 
 (* an origin-crossing forward-strand feature [a,N) + [0,b) inside an origin-crossing region
    becomes the single part [a - start, N - start + b) *)
 Lemma offset_cross_forward N a b start st :
+  st <> -1 ->
   0 <= b -> b < start -> start <= a -> a < N -> 0 < b -> b + (N - a) < N ->
   offset_location [mkPart a N st; mkPart 0 b st] (- start) (Some N)
   = Ok [mkPart (a - start) (N - start + b) st].
 Proof.
-  intros H0 H1 H2 H3 H4 H5. unfold offset_location.
+  intros Hst H0 H1 H2 H3 H4 H5. unfold offset_location.
   destruct (N =? 0) eqn:EN; [lia|]. destruct (- start =? 0) eqn:Eo; [lia|]. cbn [orb].
   destruct (N <? 1) eqn:E1; [lia|].
   replace (llen [mkPart a N st; mkPart 0 b st]) with (N - a + (b - 0 + 0)) by reflexivity.
@@ -550,14 +903,51 @@ Proof.
   destruct (negb ((0 <=? a - start) && (a - start <? N - start - 1 + 1) && (N - start - 1 + 1 <=? N) &&
                   ((0 <=? N - start) && (N - start <? N - start + b - 1 + 1) && (N - start + b - 1 + 1 <=? N) && true))) eqn:E8; [lia|].
   cbn [merge_adjacent ps pe pst].
+  replace (st =? -1) with false by lia. cbn [andb].
   destruct (N - start - 1 + 1 =? N - start) eqn:E9; [|lia].
   rewrite Z.eqb_refl. cbn [negb rev app]. f_equal. f_equal. f_equal; lia.
+Qed.
+
+(* the reverse-strand counterpart, exons in transcription order [0,b) then [a,N): the final merge loop of
+   offset_location joins consecutive reverse-strand parts downwards (repair of finding C04-K3) *)
+Lemma offset_cross_reverse N a b start :
+  0 <= b -> b < start -> start <= a -> a < N -> 0 < b -> b + (N - a) < N ->
+  offset_location [mkPart 0 b (-1); mkPart a N (-1)] (- start) (Some N)
+  = Ok [mkPart (a - start) (N - start + b) (-1)].
+Proof.
+  intros H0 H1 H2 H3 H4 H5. unfold offset_location.
+  destruct (N =? 0) eqn:EN; [lia|]. destruct (- start =? 0) eqn:Eo; [lia|]. cbn [orb].
+  destruct (N <? 1) eqn:E1; [lia|].
+  replace (llen [mkPart 0 b (-1); mkPart a N (-1)]) with (b - 0 + (N - a + 0)) by reflexivity.
+  destruct (b - 0 + (N - a + 0) =? N) eqn:E2; [lia|].
+  replace (lstart [mkPart 0 b (-1); mkPart a N (-1)]) with (Z.min 0 a) by (cbn; lia).
+  replace (lend [mkPart 0 b (-1); mkPart a N (-1)]) with (Z.max b N) by (cbn; lia).
+  destruct ((0 <=? Z.min 0 a + - start) && (Z.min 0 a + - start <? Z.max b N + - start) && (Z.max b N + - start <=? N)) eqn:E3; [lia|].
+  unfold shifted. rewrite Eo. cbn [mapM ps pe pst].
+  destruct (negb (0 + - start <? b + - start)) eqn:E5; [lia|]. cbn [orb bind].
+  destruct (negb (a + - start <? N + - start)) eqn:E4; [lia|]. cbn [orb bind flat_map app ps pe pst].
+  assert (M1 : (a + - start + N) mod N = a - start).
+  { replace (a + - start + N) with (a - start + 1 * N) by lia. rewrite Z.mod_add by lia. apply Z.mod_small. lia. }
+  assert (M2 : (N + - start - 1 + N) mod N = N - start - 1).
+  { replace (N + - start - 1 + N) with (N - start - 1 + 1 * N) by lia. rewrite Z.mod_add by lia. apply Z.mod_small. lia. }
+  assert (M3 : (0 + - start + N) mod N = N - start) by (replace (0 + - start + N) with (N - start) by lia; apply Z.mod_small; lia).
+  assert (M4 : (b + - start - 1 + N) mod N = N - start + b - 1) by (replace (b + - start - 1 + N) with (N - start + b - 1) by lia; apply Z.mod_small; lia).
+  rewrite M1, M2, M3, M4.
+  destruct ((0 <=? a - start) && (a - start <? N - start - 1 + 1) && (N - start - 1 + 1 <=? N)) eqn:E6; [|lia].
+  destruct ((0 <=? N - start) && (N - start <? N - start + b - 1 + 1) && (N - start + b - 1 + 1 <=? N)) eqn:E7; [|lia].
+  cbn [app forallb ps pe].
+  destruct (negb ((0 <=? N - start) && (N - start <? N - start + b - 1 + 1) && (N - start + b - 1 + 1 <=? N) &&
+                  ((0 <=? a - start) && (a - start <? N - start - 1 + 1) && (N - start - 1 + 1 <=? N) && true))) eqn:E8; [lia|].
+  cbn [merge_adjacent ps pe pst].
+  change (-1 =? -1) with true. cbn [andb].
+  destruct (N - start =? N - start - 1 + 1) eqn:E9; [|lia].
+  cbn [negb rev app ps pe pst]. f_equal. f_equal. f_equal; lia.
 Qed.
 
 (* the same feature lies inside the extract when the region contains it: b <= end *)
 Lemma offset_cross_forward_inside r N a b st :
   wf_region r N -> crosses r = true -> in_wrapped_region r [mkPart a N st; mkPart 0 b st] = true ->
-  0 < b -> a < N -> rstart r <= a ->
+  0 < b -> a < N -> 0 < rstart r <= a ->
   0 <= a - rstart r /\ N - rstart r + b <= out_len r N.
 Proof.
   intros [Hs He] Hc Hin Hb Ha Hsa. unfold out_len. rewrite Hc. unfold crosses in Hc.
@@ -627,7 +1017,7 @@ Lemma parent_unchanged_witness : exists r sq feats o,
   map fl1 feats = [None; Some w_core] /\ map fl1 (o_feats o) = [None; Some [mkPart 1 3 1]].
 Proof.
   exists (mkR 8 3 [(1, [(1, w_core)])] []), w_seq,
-         [w_region_feat [1] []; mkFeat T_proto 0 [mkPart 8 10 1; mkPart 0 3 1] [1] [] (Some w_core) None].
+         [w_region_feat [] []; mkFeat T_proto 0 [mkPart 8 10 1; mkPart 0 3 1] [1] [] (Some w_core) None].
   eexists. split; [unfold wf_region; cbn; lia|]. split; [reflexivity|].
   split; [vm_compute; reflexivity|]. repeat split; reflexivity.
 Qed.
@@ -645,15 +1035,29 @@ Proof.
   split; [vm_compute; reflexivity|]. repeat split; reflexivity.
 Qed.
 
-(* F19: gaps in the numbers of an origin-crossing region stay *)
-Lemma renumber_gap_refuted : exists r sq feats o,
-  wf_region r (zlen sq) /\ crosses r = true /\ write_to_genbank r sq feats = Ok o /\
-  nums_of T_cand (o_feats o) = [1; 3] /\ numbers_ok (o_feats o) = false.
+(* F19 (repaired): candidate clusters 1 and 3, protoclusters 1 and 2 of an origin-crossing region; the
+   areas before the origin come first in the extract, so 3 -> 1, 1 -> 2 and 2 -> 1, 1 -> 2, and the
+   candidates' protocluster lists follow *)
+Definition w_gap_region := mkR 8 3 [(1, [(1, [mkPart 1 2 1])]); (3, [(2, [mkPart 8 9 1])])] [].
+Definition w_gap_feats :=
+  [ mkFeat T_region 0 [mkPart 8 10 1; mkPart 0 3 1] [1; 3] [] None None;
+    mkFeat T_cand 0 [mkPart 1 2 1] [1] [1] None None;
+    mkFeat T_proto 0 [mkPart 1 2 1] [1] [] (Some [mkPart 1 2 1]) None;
+    mkFeat T_cand 0 [mkPart 8 9 1] [3] [2] None None;
+    mkFeat T_proto 0 [mkPart 8 9 1] [2] [] (Some [mkPart 8 9 1]) None ].
+
+Lemma renumber_gap_witness : exists o,
+  wf_region w_gap_region (zlen w_seq) /\ crosses w_gap_region = true /\
+  write_to_genbank w_gap_region w_seq w_gap_feats = Ok o /\
+  map ftype (o_feats o) = [T_cand; T_proto; T_region; T_cand; T_proto] /\
+  map floc (o_feats o) = [[mkPart 0 1 1]; [mkPart 0 1 1]; [mkPart 0 5 1]; [mkPart 3 4 1]; [mkPart 3 4 1]] /\
+  map fq1 (o_feats o) = [[1]; [1]; [2; 1]; [2]; [2]] /\
+  map fq2 (o_feats o) = [[1]; []; []; [2]; []] /\
+  nums_of T_cand (o_feats o) = [1; 2] /\ nums_of T_proto (o_feats o) = [1; 2] /\
+  numbers_ok (o_feats o) = true /\ position_order w_gap_region (o_feats o) = true.
 Proof.
-  exists (mkR 8 3 [(1, [(1, [mkPart 8 9 1])]); (3, [(2, [mkPart 1 2 1])])] []), w_seq,
-         [mkFeat T_cand 0 [mkPart 8 9 1] [1] [1] None None; mkFeat T_cand 0 [mkPart 1 2 1] [3] [2] None None].
   eexists. split; [unfold wf_region; cbn; lia|]. split; [reflexivity|].
-  split; [vm_compute; reflexivity|]. split; reflexivity.
+  split; [vm_compute; reflexivity|]. repeat split; reflexivity.
 Qed.
 
 (* F47 (repaired): leader_location of a prepeptide after the origin is moved around the ring with the
@@ -681,38 +1085,51 @@ Proof.
   split; [vm_compute; reflexivity|]. repeat split; reflexivity.
 Qed.
 
-(* F51: start = end (the whole ring, cut at start) gives an empty extract *)
-Lemma sequence_whole_ring_refuted : exists r sq feats o,
-  wf_region r (zlen sq) /\ rstart r = rend r /\ write_to_genbank r sq feats = Ok o /\
-  o_seq o = [] /\ o_feats o = [] /\ length (expected_seq r sq) = 10%nat.
+(* F51 (repaired): start = end is the whole ring, cut at start: the extract is the rotated sequence, the
+   gene after the cut and the gene across the origin are moved, the region feature covering the whole
+   ring becomes [0, N) *)
+Definition w_ring_region := mkR 4 4 [] [].
+Definition w_ring_feats :=
+  [ mkFeat 7 1 [mkPart 5 8 1] [] [] None None;
+    mkFeat T_region 0 [mkPart 4 10 1; mkPart 0 4 1] [] [] None None;
+    mkFeat 7 2 [mkPart 9 10 1; mkPart 0 1 1] [] [] None None;
+    mkFeat 7 3 [mkPart 1 3 (-1)] [] [] None None;
+    mkFeat 7 4 [mkPart 3 5 1] [] [] None None ].
+
+Lemma whole_ring_witness : exists o,
+  wf_region w_ring_region (zlen w_seq) /\ rstart w_ring_region = rend w_ring_region /\
+  crosses w_ring_region = true /\
+  write_to_genbank w_ring_region w_seq w_ring_feats = Ok o /\
+  o_seq o = [0; 1; 2; 3; 0; 1; 0; 1; 2; 3] /\ o_seq o = expected_seq w_ring_region w_seq /\
+  map ftag (o_feats o) = [1; 0; 2; 3] /\
+  map floc (o_feats o) = [[mkPart 1 4 1]; [mkPart 0 10 1]; [mkPart 5 7 1]; [mkPart 7 9 (-1)]].
 Proof.
-  exists (mkR 4 4 [] [1]), w_seq, [mkFeat 7 1 [mkPart 5 8 1] [] [] None None].
-  eexists. split; [unfold wf_region; cbn; lia|]. split; [reflexivity|].
+  eexists. split; [unfold wf_region; cbn; lia|]. split; [reflexivity|]. split; [reflexivity|].
   split; [vm_compute; reflexivity|]. repeat split; reflexivity.
 Qed.
 
 Lemma sequence_full r sq feats o :
-  wf_region r (zlen sq) -> rstart r <> rend r ->
+  wf_region r (zlen sq) ->
   write_to_genbank r sq feats = Ok o ->
   o_seq o = expected_seq r sq /\
   length (o_seq o) = Z.to_nat (out_len r (zlen sq)) /\
   forall i, (i < Z.to_nat (out_len r (zlen sq)))%nat ->
     nth i (o_seq o) (-1) = nth (Z.to_nat ((rstart r + Z.of_nat i) mod zlen sq)) sq (-1).
 Proof.
-  intros Hwf Hne H. rewrite (write_sequence r sq feats o Hwf Hne H).
+  intros Hwf H. rewrite (write_sequence r sq feats o Hwf H).
   split; [reflexivity|]. split; [apply expected_seq_length|]. intros i Hi. apply expected_seq_spec. exact Hi.
 Qed.
 
 Lemma adjust_numbers_full c f g : adjust_feat c f = Ok g ->
   (floc g = floc f /\ ftype g = ftype f /\ ftag g = ftag f) /\
-  (ftype f = T_region -> fq1 g = map (renum (c_first_cc c)) (fq1 f) /\
-                         fq2 g = map (renum (c_first_sub c)) (fq2 f)) /\
-  (ftype f = T_cand -> exists n q, fq1 f = n :: q /\ fq1 g = [renum (c_first_cc c) n] /\
-                                   fq2 g = map (renum (c_first_cluster c)) (fq2 f)) /\
+  (ftype f = T_region -> mapM (new_number (c_cc c)) (fq1 f) = Ok (fq1 g) /\
+                         mapM (new_number (c_sub c)) (fq2 f) = Ok (fq2 g)) /\
+  (ftype f = T_cand -> exists n q i, fq1 f = n :: q /\ new_number (c_cc c) n = Ok i /\ fq1 g = [i] /\
+                                     mapM (new_number (c_pc c)) (fq2 f) = Ok (fq2 g)) /\
   (ftype f = T_proto \/ ftype f = T_core ->
-     exists n q, fq1 f = n :: q /\ fq1 g = [renum (c_first_cluster c) n] /\
-                 lookup_last n (c_protos c) None <> None) /\
-  (ftype f = T_sub -> exists n q, fq1 f = n :: q /\ fq1 g = [renum (c_first_sub c) n]).
+     exists n q i, fq1 f = n :: q /\ new_number (c_pc c) n = Ok i /\ fq1 g = [i] /\
+                   lookup_last n (c_protos c) None <> None) /\
+  (ftype f = T_sub -> exists n q i, fq1 f = n :: q /\ new_number (c_sub c) n = Ok i /\ fq1 g = [i]).
 Proof. intros H. split; [exact (adjust_feat_keeps c f g H)|exact (adjust_numbers c f g H)]. Qed.
 
 (* ====================================================================================== *)
